@@ -116,7 +116,7 @@ class Builder:
             r = bytearray(self.build(d['__bytearray__']))
         elif '__list__' in d:
             items = [self.build(x) for x in d['__list__']]
-            r = collections.deque(items) if d.get('flavor') == 'deque' else items
+            r = collections.deque(items, maxlen=d.get('maxlen')) if d.get('flavor') == 'deque' else items
         elif '__dict__' in d:
             r = {self.build(k): self.build(v) for k, v in d['__dict__']}
         elif '__map__' in d:
@@ -466,7 +466,7 @@ def _leaves(d, path=()):
         yield path, d
     elif isinstance(d, dict):
         for k, v in d.items():
-            if k in ('__obj__', 'flavor'):
+            if k in ('__obj__', 'flavor', 'maxlen'):
                 continue
             yield from _leaves(v, path + (k,))
     elif isinstance(d, (list, tuple)):
